@@ -20,7 +20,7 @@ def run(tier, seed):
         # constant-rate / repeating schedules of the constrained FINE model are accepted with equal value, every other schedule
         # (near-miss group_rate / period_rate) is not representable, and the optimum equals the fine optimum with the equalities
         pos = common.spec_to_code(chk, cfgs, make_real, relax=RELAX, neg_cfgs=cfgs if th else cfgs[seed % 2::2], tag=tag, sel_hook=onsel)
-        common.code_to_spec(chk, cfgs, make_real, tag=tag, chk_fields=('chdis',), sel_hook=onsel)
+        common.code_to_spec(chk, cfgs, make_real, tag=tag, chk_fields=('level', 'chdis'), sel_hook=onsel)
     chk.assumptions += ['limits constant inside a coarse interval / across merged periodic steps (the documentation does not settle time-varying limits there)',
                         'coarse windows start on a coarse-interval boundary inside the horizon; wacc = 0 for coarse assets', 'equal step lengths inside a coarse interval']
     return chk.finish(rule='every asset kind accepting freq / periodicity (contract with one and two variables, transport, storage with one and two variables, '
